@@ -56,8 +56,15 @@ def run_translators():
     os.makedirs(os.path.join(COQ, 'Gen'), exist_ok=True)
     out = {}
     for what, target in TRANSLATORS:
-        rc, o = sh([os.path.join(BUILD, 'gen'), what, REPO, os.path.join(COQ, 'Gen', target)], env=GOENV, timeout=600)
+        tgt = os.path.join(COQ, 'Gen', target)
+        rc, o = sh([os.path.join(BUILD, 'gen'), what, REPO, tgt], env=GOENV, timeout=600)
         out[what] = (rc, o.strip())
+        if rc != 0:
+            # the translator cannot read the source any more: the model is not tied to it.  The stale
+            # generated file must not stand in: every theorem over it stops checking.
+            log('translator %s failed: %s' % (what, o.strip()[-300:]))
+            open(tgt, 'w').write('(* GENERATED: translator %s FAILED on the current source: %s *)\nDefinition translator_failed := tt.\n'
+                                 % (what, o.strip().replace('*)', '* )')[-300:]))
     return out
 
 TRANSLATORS = [('fieldtable', 'FieldTable.v'), ('syncskel', 'SyncSkeleton.v'), ('racetable', 'AccessTable.v')]
@@ -489,6 +496,13 @@ def _run_check(prop, tier, seed, replay, info, work, t0):
             if len(samples) < 3 and len(c) < 600:
                 samples.append({'case': c, 'impl': iobs[:300], 'model_agrees': mobs == iobs or mobs == '-'})
             viol, mism = res[i]
+            if viol and '+' in viol[0]:
+                # several sentences fail on this case: take the first kind this property is about
+                ks = viol[0].split('+')
+                mine = [k for k in ks if 'kinds' not in prop or k in prop['kinds']]
+                # a kind listed as known finding must not hide another one of this property
+                mine.sort(key=lambda k: k in known_kinds)
+                viol = (mine[0] if mine else ks[0], viol[1])
             if viol and 'kinds' in prop and viol[0] not in prop['kinds'] and viol[0] != 'crash':
                 viol = None      # a statement of another property evaluated by the same domain
             if viol:
